@@ -54,8 +54,15 @@ Definition apply1 (st : env * list errkind) (o : eopt) : env * list errkind :=
 Definition apply_options (input : vkind) (os : list eopt) : env * list errkind :=
   fold_left apply1 os (init_env input, []).
 
-(* what a constant evaluates to: a collection is spliced in (one level), anything else is a singleton *)
-Definition splice (v : vkind) : list vkind := match v with KColl l => l | x => [x] end.
+(* what a constant evaluates to: a collection is spliced in -- collections nested inside it too, so that the result is
+   a flat FHIRPath collection (fix 7e5d2e5; before it only one level was spliced and an item could itself be a
+   collection) --, anything else is a singleton *)
+Fixpoint splice (v : vkind) : list vkind :=
+  match v with
+  | KColl l => (fix go (l : list vkind) : list vkind := match l with [] => [] | x :: l' => splice x ++ go l' end) l
+  | x => [x]
+  end.
+Definition is_item (v : vkind) : bool := match v with KColl _ => false | _ => true end.
 
 Inductive eres :=
 | RErr (existing unsupported : bool)      (* Evaluate returned the joined option errors; nothing was evaluated *)
